@@ -575,6 +575,9 @@ func c16Methods(p *core.Program, r *core.Report) {
 		if isID {
 			ds := defs[objOf(info, id)]
 			why = fmt.Sprintf("`%s` has %d definitions", id.Name, len(ds))
+			if len(ds) == 0 {
+				why = "`" + id.Name + "` is a parameter that the helper itself reassigns, or is not a variable of the table builder"
+			}
 			if len(ds) == 1 {
 				if dc, ok := eng.Unparen(ds[0]).(*ast.CallExpr); ok && len(dc.Args) == 1 {
 					fn := eng.CalleeOf(info, dc)
